@@ -54,13 +54,25 @@ func (vfs *OrefaFS) createNode(parent *node, absPath, fileName string, mode fs.F
 	parent.mu.Lock()
 	defer parent.mu.Unlock()
 
+	gid := vfs.User().Gid()
+
+	// As on Linux, a node created in a set-group-ID directory inherits the group of the directory,
+	// and a new directory the set-group-ID bit.
+	if parent.mode&fs.ModeSetgid != 0 {
+		gid = parent.gid
+
+		if mode.IsDir() {
+			mode |= fs.ModeSetgid
+		}
+	}
+
 	nd := &node{
 		id:    atomic.AddUint64(vfs.lastId, 1),
 		mtime: time.Now().UnixNano(),
 		mode:  mode,
 		dir:   mode.IsDir(),
 		uid:   vfs.User().Uid(),
-		gid:   vfs.User().Gid(),
+		gid:   gid,
 		nlink: 1,
 	}
 
